@@ -445,9 +445,10 @@ Definition translate (real : rtype) (s : str) : pyval :=
   end.
 
 (* Typed.nillable: content.type.nillable or (resolved.builtin() and resolved.nillable);
-   XBuiltin.nillable is True for every built-in the family uses *)
+   XBuiltin.nillable is True for every built-in except XAny (xsd:anyType) *)
+Definition builtin_nillable (k : N) : bool := negb (N.eqb k b_anyType).
 Definition decl_nillable (d : edecl) : bool :=
-  e_nil d || match e_type d with TBuiltin => true | TNamed _ _ => false end.
+  e_nil d || match e_type d with TBuiltin => builtin_nillable (kind_of (e_name d)) | TNamed _ _ => false end.
 
 (* Core.append: start, append_attributes, append_children, append_text, end, postprocess.
    decl = the type the content was looked up as (None: not in the schema);
@@ -520,7 +521,7 @@ Definition returned_types (wt : ctype) : list rentry :=
 (* unmarshaller.process(node, rt.resolve(nobuiltin=True)) *)
 Definition process_top (env : list frame) (d : edecl) (n : elem) : dres pyval :=
   let r := resolve_tref (e_name d) (e_type d) in
-  decode env r (match r with Some (RB _) => true | _ => false end) n.
+  decode env r (match r with Some (RB k) => builtin_nillable k | _ => false end) n.
 
 Fixpoint rfind_entry (n : N) (l : list rentry) (acc : option rentry) : option rentry :=
   match l with
